@@ -65,6 +65,7 @@ def generate(seed, batch):
         scen['second_pair'] = rng.random() < 0.3
         # an earlier analysis in the same process that asked for a loose solver tolerance (result not judged)
         scen['loose_first'] = 10 ** rng.uniform(-3, -1) if rng.random() < 0.15 else None
+        scen['np_scalars'] = rng.random() < 0.3
         if batch == 'FI':
             nf = rng.choice([1, 1, 1, 2, 3])
             calls = rng.sample([1, 2, 3], nf)
@@ -77,6 +78,9 @@ def generate(seed, batch):
         scen['k'] = rng.choice([1, 2, 3, 5, 8])
         scen['scale_s'] = None
         scen['cross_path'] = rng.random() < 0.3
+        scen['np_scalars'] = rng.random() < 0.3
+        # the same object is used for a frequency analysis before the buckling analysis (both store their results on it)
+        scen['freq_first'] = rng.random() < 0.3
         if kind == 'panel':
             scen['impl'] = rng.choice(['analysis', 'panel'])
             flags = {}
@@ -143,7 +147,7 @@ def shrink_candidates(scen):
             c = copy.deepcopy(scen)
             del c['faults'][i]
             yield c
-    for key, val in (('scale_s', None), ('cross_path', False), ('redefine_flags', None), ('second_v0', False), ('model_scale', None), ('second_pair', False), ('loose_first', None)):
+    for key, val in (('scale_s', None), ('cross_path', False), ('redefine_flags', None), ('second_v0', False), ('model_scale', None), ('second_pair', False), ('loose_first', None), ('np_scalars', False), ('freq_first', False)):
         if scen.get(key) not in (val,):
             c = copy.deepcopy(scen)
             c[key] = val
@@ -252,6 +256,12 @@ def build_model_matrices(scen):
 def call_impl(scen, K, KG, k, sparse, obj=None, tol=0):
     """Runs the implementation; returns (eigvals, eigvecs, pos) where pos = leading rows that are padding."""
     impl = scen['impl']
+    if scen.get('np_scalars'):
+        # counts and switches that come out of numpy computations (np.int64, np.bool_, np.float64) instead of Python literals
+        import numpy as _np
+        k = _np.int64(k)
+        sparse = _np.bool_(sparse)
+        tol = _np.float64(tol)
     if impl == 'analysis':
         from compmech.analysis import lb
         vals, vecs = lb(K, KG, tol=tol, sparse_solver=sparse, silent=True, num_eigvalues=k)
@@ -506,6 +516,17 @@ def execute(scen):
 
         seam.install([m_lb, m_panel, m_cc])
         outcome = None
+        if scen.get('freq_first') and scen['src'] == 'model' and scen['impl'] == 'panel' and obj is not None:
+            saved_faults, seam.faults = seam.faults, {}
+            try:
+                if getattr(obj, 'mu', None) is None:
+                    obj.mu = 1.3e3
+                obj.num_eigvalues = min(int(k), 3)
+                obj.freq(atype=4, silent=True)
+                bump(res['probes'], 'frequency_analysis_first_on_the_same_object')
+            except Exception as e:
+                bump(res['exceptions'], 'freq_first_' + type(e).__name__)
+            seam.faults, seam.calls, seam.modes = saved_faults, 0, []
         if scen.get('loose_first'):
             saved_faults, seam.faults = seam.faults, {}
             try:
